@@ -37,6 +37,8 @@ RULE = ("non-trivial: the implementation released at least 2 tokens and the prof
 BRIDGES = ["Gen/Sched_bridge.v"]
 # float rounding bound (Flocq): statements only, proofs in Proofs/SchedFloat*.v (built once, cached)
 FLOAT = ["Properties/C01_float.v"]
+# list profiles; step / list profiles shared by several consumers (through property C02's concurrent model of composite.go)
+SHARED = ["Properties/C01_shared.v"]
 TRUSTED = [
     "translator harness/cmd/translate sched (go/ast over NewConst, constDoAt, NewLine, lineDoAt, NewOnce, NewStep -> arithmetic AST of "
     "Model/SchedExpr.v; local definitions inlined, integer vs float division decided from the declared parameter types)",
@@ -83,11 +85,11 @@ def run(ctx):
     ok_t = common.translate(ctx, "sched", "SchedGen.v")
     model_ok = ctx.coq(["Extract/Extract%s.vo" % ctx.prop], what="model+extraction")
     if model_ok and ok_t:
-        ctx.properties(extra_files=BRIDGES + FLOAT)
+        ctx.properties(extra_files=BRIDGES + FLOAT + SHARED)
     elif model_ok:
         # Gen/SchedGen.v is stale: nothing about the current source can be discharged
         import os
-        files = [os.path.join(common.COQ, "Properties", "C01.v")] + [os.path.join(common.COQ, f) for f in BRIDGES + FLOAT]
+        files = [os.path.join(common.COQ, "Properties", "C01.v")] + [os.path.join(common.COQ, f) for f in BRIDGES + FLOAT + SHARED]
         ctx.statements = [(k, n, os.path.relpath(f, common.COQ)) for f in files for (k, n) in common.count_statements(f)]
         ctx.obligations = len(ctx.statements)
         ctx.discharged = 0
@@ -106,9 +108,10 @@ def run(ctx):
         ck = ctx.coqchk()
         if ck:
             cov.update(ck)
-            ck2 = coqchk_extra(ctx, "C01_float")
-            if ck2:
-                cov["coqchk_axioms"] = sorted(set(cov.get("coqchk_axioms", [])) | set(ck2["coqchk_axioms"]))
-                cov["coqchk_wall_s"] = round(cov.get("coqchk_wall_s", 0) + ck2["coqchk_wall_s"], 1)
+            for extra in ("C01_float", "C01_shared"):
+                ck2 = coqchk_extra(ctx, extra)
+                if ck2:
+                    cov["coqchk_axioms"] = sorted(set(cov.get("coqchk_axioms", [])) | set(ck2["coqchk_axioms"]))
+                    cov["coqchk_wall_s"] = round(cov.get("coqchk_wall_s", 0) + ck2["coqchk_wall_s"], 1)
     cov["trusted_base_extra"] = TRUSTED
     ctx.finish(cov, assumptions=ASSUMPTIONS)
